@@ -294,7 +294,7 @@ PROPS["C19"]["extra"] = c19_extra
 
 for _p in ("C11", "C12", "C04"):
     PROPS[_p]["timeout"] = {"quick": 900, "thorough": 3000}
-PROPS["C01"]["go_tests"] = ["TestVerifStore", "TestVerifPoolAlias", "TestVerifRangeConcurrent"]
+PROPS["C01"]["go_tests"] = ["TestVerifStore", "TestVerifPoolAlias", "TestVerifRangeConcurrent", "TestVerifRBMutex"]
 PROPS["C01"]["impl_only_traces"] = ["poolalias", "rangeconc"]
 PROPS["C01"]["rule"] = STORE_RULE + "; plus, for the entry-pool configurations (outside the model), concurrent runs of 8 goroutines on pool-enabled plain and loading stores of 4..13 entries over 48 keys, checking that every value read for a key was written or loaded for that key; and Range racing Delete / Set of the keys of the shard it is visiting (plain and pool): no visit of a key whose Delete has returned, no value older than a returned Set"
 PROPS["C01"]["assumptions"] = ["the theorems cover the entry pool disabled; with the pool enabled only the 'never a value of another key' clause is exercised, by a concurrent harness (testing)"]
